@@ -241,7 +241,7 @@ class Mat(Obj):
             "tolist": lambda ev, call, args, kw: [list(r) for r in self.rows],
             "transpose": lambda ev, call, args, kw: Mat([list(c) for c in zip(*self.rows)]) if self.rows else Mat([]),
             "copy": lambda ev, call, args, kw: Mat([list(r) for r in self.rows]),
-            "astype": lambda ev, call, args, kw: Mat([list(r) for r in self.rows]),
+            "astype": lambda ev, call, args, kw: self._astype(args[0] if args else kw.get("dtype"), call),
             # a value that identifies the content (what bytes / a hashable digest are used for)
             "tobytes": lambda ev, call, args, kw: ("bytes",) + tuple(x for r in self.rows for x in r),
             "tostring": lambda ev, call, args, kw: ("bytes",) + tuple(x for r in self.rows for x in r),
@@ -252,6 +252,12 @@ class Mat(Obj):
             "max": lambda ev, call, args, kw: max(x for r in self.rows for x in r),
             "min": lambda ev, call, args, kw: min(x for r in self.rows for x in r),
         }
+
+    def _astype(self, dtype, node):
+        dt = norm_dtype(dtype)
+        m = Mat([[check_dtype(dt, x, node) for x in r] for r in self.rows])
+        m.dtype = dt
+        return m
 
     def _sum(self, axis):
         num = lambda x: 1 if x is True else (0 if x is False else x)
@@ -319,6 +325,32 @@ class Mat(Obj):
                 m = Mat([row[c] for row in self.rows[r]])
                 m.frozen = True
                 return m
+        if isinstance(idx, tuple) and len(idx) == 2:
+            # one axis selected by a slice, the other by an index array or a boolean mask: a copy (fancy indexing)
+            def axis(ix, n):
+                if isinstance(ix, slice):
+                    return list(range(n))[ix]
+                vals = ix.vals if isinstance(ix, Vec) else (ix if isinstance(ix, list) else None)
+                if vals is None:
+                    return None
+                if vals and all(isinstance(x, bool) for x in vals):
+                    if len(vals) != n:
+                        raise AbsRaise("IndexError", node)      # boolean index did not match the indexed array
+                    return [i for i, m in enumerate(vals) if m]
+                if all(isinstance(x, int) and not isinstance(x, bool) for x in vals):
+                    for x in vals:
+                        if not -n <= x < n:
+                            raise IndexOut(x, n, node)
+                    return [x % n if n else x for x in vals]
+                return None
+            r, c = idx
+            if isinstance(r, slice) != isinstance(c, slice):
+                ri, ci = axis(r, len(self.rows)), axis(c, ncols)
+                if ri is not None and ci is not None:
+                    m = Mat([[self.rows[i][j] for j in ci] for i in ri])
+                    m.dtype = self.dtype
+                    m.ncols_hint = len(ci)
+                    return m
         raise Unsupported(f"matrix index {idx!r}", node)
 
     def abs_setitem(self, idx, op, value, ev, stmt):
@@ -389,12 +421,35 @@ INT_DTYPE_RANGE = {"int8": (-128, 127), "uint8": (0, 255), "int16": (-32768, 327
                    "uint64": (0, 2 ** 64 - 1)}
 
 
+def norm_dtype(dtype):
+    """Name of a numpy dtype given as a string, a numpy scalar type name or a python type (int -> int64 ...)."""
+    if dtype is None or isinstance(dtype, str):
+        return "bool_" if dtype == "bool" else dtype
+    return {int: "int64", float: "float64", bool: "bool_"}.get(dtype)
+
+
 def check_dtype(dtype, value, node):
-    """numpy (>= 2) refuses to store a python integer that the array's integer type cannot hold."""
-    if dtype in INT_DTYPE_RANGE and isinstance(value, int) and not isinstance(value, bool):
-        lo, hi = INT_DTYPE_RANGE[dtype]
-        if not lo <= value <= hi:
-            raise AbsRaise("OverflowError", node)
+    """The value an array of type `dtype` holds after `value` is stored in one of its cells: numpy (>= 2) refuses a python
+    integer that an integer type cannot hold, and silently truncates a float towards zero; a float array makes floats
+    of integers; symbolic values are left alone."""
+    if dtype in INT_DTYPE_RANGE:
+        if isinstance(value, bool):
+            return int(value)
+        if isinstance(value, float):
+            if value != value:
+                raise AbsRaise("ValueError", node)          # cannot convert float NaN to integer
+            if value in (float("inf"), float("-inf")):
+                raise AbsRaise("OverflowError", node)
+            value = int(value)
+        if isinstance(value, int):
+            lo, hi = INT_DTYPE_RANGE[dtype]
+            if not lo <= value <= hi:
+                raise AbsRaise("OverflowError", node)
+    elif dtype in ("float64", "float32") and isinstance(value, (int, bool)):
+        return float(value)
+    elif dtype == "bool_" and isinstance(value, (int, float)):
+        return bool(value)
+    return value
 
 
 SET_ORDER = ["asc"]         # iteration order given to sets: canonical ("asc") or reversed ("desc"). Python leaves the
@@ -407,6 +462,14 @@ def set_items(s) -> list:
     return items if SET_ORDER[0] == "asc" else items[::-1]
 
 
+BUILTIN_TYPES = {"list": list, "set": set, "dict": dict, "int": int, "float": float, "str": str, "tuple": tuple,
+                 "bool": bool, "frozenset": frozenset}
+# methods of concrete containers that may be taken as values (key=d.get, map(s.strip, ...)): side-effect free ones only
+VALUE_METHODS = {dict: ("get", "__getitem__", "__contains__", "keys", "values", "items"),
+                 list: ("__getitem__", "__contains__", "index", "count"), tuple: ("__getitem__", "__contains__", "index", "count"),
+                 set: ("__contains__", "issubset", "issuperset", "isdisjoint", "intersection", "union", "difference"),
+                 frozenset: ("__contains__", "issubset", "issuperset", "isdisjoint", "intersection", "union", "difference"),
+                 str: ("strip", "lower", "upper", "isdigit", "startswith", "endswith", "split", "__contains__")}
 FALLBACK_CLASS_ATTR = None  # set by engines/resolve.install(project): class-level constants read through an instance
 FALLBACK_NAMES = None       # set by engines/resolve.install(project): module-level constants / class attributes by name
 FALLBACK_RESOLVER = None    # set by engines/resolve.install(project): resolves un-scripted calls to package functions
@@ -818,6 +881,8 @@ class Evaluator:
             return self.env[n.id]
         if n.id in ("True", "False", "None"):
             return {"True": True, "False": False, "None": None}[n.id]
+        if n.id in BUILTIN_TYPES and not (self.runtime is not None and self.runtime.lookup_name(self.module, n.id)[0]):
+            return BUILTIN_TYPES[n.id]          # a builtin type used as a value (defaultdict(list), map(int, ...))
         if self.runtime is not None:
             found, v = self.runtime.lookup_name(self.module, n.id)
             if found:
@@ -936,6 +1001,15 @@ class Evaluator:
             if isinstance(v, int) and not isinstance(v, bool):
                 return ~v
         raise Unsupported("unary operator", n)
+
+    def getattr_value(self, obj, name: str, node=None):
+        """attribute `name` of an abstract value (operator.attrgetter, getattr())"""
+        if hasattr(obj, "abs_getattr"):
+            return obj.abs_getattr(name, self, node)
+        if isinstance(obj, Obj) and name in obj.attrs:
+            v = obj.attrs[name]
+            return v() if callable(v) else v
+        raise Unsupported(f"attribute {name} of {type(obj).__name__}", node)
 
     def truth(self, v, node=None) -> bool:
         if isinstance(v, (Sym, Lin, Vec)):
@@ -1058,6 +1132,10 @@ class Evaluator:
             return base[idx]
         if isinstance(base, dict):
             if idx not in base:
+                fac = getattr(base, "default_factory", None)
+                if fac is not None:         # collections.defaultdict: the missing key is created by the factory
+                    base[idx] = self._apply(fac, [], n) if not isinstance(fac, type) else fac()
+                    return base[idx]
                 raise AbsRaise("KeyError", n)
             return base[idx]
         raise Unsupported(f"subscript of {type(base).__name__}", n)
@@ -1071,11 +1149,20 @@ class Evaluator:
             if v is not None:
                 return v
         base = self.ev(n.value)
+        for ty, names in VALUE_METHODS.items():
+            if type(base) is ty and n.attr in names:
+                return getattr(base, n.attr)
         if isinstance(base, Vec):
             if n.attr == "shape":
                 return (len(base.vals),)
             if n.attr == "size":
                 return len(base.vals)
+            if n.attr == "__getitem__":
+                return lambda i, _b=base: _b.vals[i]
+            if n.attr == "dtype":
+                return base.dtype or "float64"
+            if n.attr == "T":
+                return base
             raise Unsupported(f"attribute {n.attr} of a vector", n)
         if not isinstance(base, Obj) and hasattr(base, "abs_getattr"):
             return base.abs_getattr(n.attr, self, n)
@@ -1092,6 +1179,8 @@ class Evaluator:
             raise Unsupported(f"attribute {n.attr} of {base!r}", n)
         if isinstance(base, dict) and n.attr in base:
             return base[n.attr]
+        if base is None:
+            raise AbsRaise("AttributeError", n)         # 'NoneType' object has no attribute ...
         raise Unsupported(f"attribute {n.attr}", n)
 
     def _e_Call(self, n):
@@ -1176,10 +1265,8 @@ class Evaluator:
                     if len(args) > 1:
                         return args[1]
                     raise AbsRaise("StopIteration", n)
-                if isinstance(it, list) and it:
-                    return it[0]
-                if len(args) > 1:
-                    return args[1]
+                if isinstance(it, (list, tuple, set, frozenset, dict, str)):
+                    raise AbsRaise("TypeError", n)          # not an iterator
                 raise Unsupported("next of abstract", n)
             if name == "dict":
                 out = {}
@@ -1217,7 +1304,7 @@ class Evaluator:
                 if name == "frozenset":
                     return frozenset(v)
                 if name == "iter":
-                    return list(v) if not isinstance(v, (set, frozenset)) else set_items(v)
+                    return OnceIter(list(v) if not isinstance(v, (set, frozenset)) else set_items(v))
                 if name == "any":
                     return any(self.truth(x, n) for x in v)
                 if name == "all":
@@ -1288,15 +1375,24 @@ class Evaluator:
                 if isinstance(args[0], (Sym, Lin, Vec)):
                     raise Unsupported("int of symbolic", n)
                 try:
-                    return int(args[0])
+                    return int(*args)
                 except ValueError:
                     raise AbsRaise("ValueError", n)
                 except TypeError:
                     raise AbsRaise("TypeError", n)
+                except OverflowError:
+                    raise AbsRaise("OverflowError", n)       # int(float("inf"))
             if name == "float":
                 if isinstance(args[0], (Sym, Lin)):
                     return args[0]
-                return float(args[0]) if not isinstance(args[0], Fraction) else args[0]
+                try:
+                    return float(args[0]) if not isinstance(args[0], Fraction) else args[0]
+                except ValueError:
+                    raise AbsRaise("ValueError", n)
+                except TypeError:
+                    raise AbsRaise("TypeError", n)
+                except OverflowError:
+                    raise AbsRaise("OverflowError", n)
             if name == "range":
                 if not all(isinstance(a, int) for a in args):
                     raise Unsupported("range over abstract bound", n)
@@ -1343,6 +1439,16 @@ class Evaluator:
         if callable(fv) and getattr(fv, "__name__", "") == "fn":      # evaluator lambda
             args, kw = self._call_args(n)
             return fv(*args)
+        if callable(fv) and type(getattr(fv, "__self__", None)) in VALUE_METHODS \
+                and getattr(fv, "__name__", "") in VALUE_METHODS[type(fv.__self__)]:
+            args, kw = self._call_args(n)               # a side-effect free method of a concrete container taken as a value
+            try:
+                return fv(*args, **kw)
+            except (KeyError, IndexError, ValueError, TypeError) as exc:
+                raise AbsRaise(type(exc).__name__, n)
+        if callable(fv) and getattr(fv, "__name__", "") == "<lambda>" and getattr(fv, "__module__", "").endswith("abseval"):
+            args, kw = self._call_args(n)
+            return fv(*args)
         if isinstance(fv, type) and fv in (int, float, str, bool, list, set, tuple, dict, frozenset):
             args, kw = self._call_args(n)
             try:
@@ -1365,6 +1471,13 @@ class Evaluator:
             found, val = FALLBACK_RESOLVER(self, n, name)
             if found:
                 return val
+        if isinstance(n.func, ast.Attribute):
+            try:
+                recv = self.ev(n.func.value)
+            except (Unsupported, AbsRaise):
+                recv = NotImplemented
+            if recv is None:
+                raise AbsRaise("AttributeError", n)     # method called on None
         raise Unsupported(f"call {name or ast.dump(n.func)[:40]}", n)
 
     # ------------------------------------------------------------------ statements
@@ -1400,6 +1513,25 @@ class Evaluator:
                 self.env[target.id] = _arith(binop, cur, value, stmt)
             return
         if isinstance(target, (ast.Tuple, ast.List)):
+            if op == "=" and not isinstance(value, (tuple, list)):
+                if hasattr(value, "abs_iter"):
+                    value = list(value.abs_iter())
+                elif isinstance(value, Vec):
+                    value = list(value.vals)
+            if op == "=" and isinstance(value, (tuple, list)) and any(isinstance(e, ast.Starred) for e in target.elts):
+                k = next(i for i, e in enumerate(target.elts) if isinstance(e, ast.Starred))
+                after = len(target.elts) - k - 1
+                if len(value) < len(target.elts) - 1:
+                    raise AbsRaise("ValueError", stmt)
+                head, mid, tail = list(value[:k]), list(value[k:len(value) - after]), list(value[len(value) - after:]) if after else []
+                for el, v in zip(target.elts[:k], head):
+                    self.store(el, "=", v, stmt)
+                self.store(target.elts[k].value, "=", mid, stmt)
+                for el, v in zip(target.elts[k + 1:], tail):
+                    self.store(el, "=", v, stmt)
+                return
+            if op == "=" and isinstance(value, (tuple, list)) and len(value) != len(target.elts):
+                raise AbsRaise("ValueError", stmt)           # too many / not enough values to unpack
             if op != "=" or not isinstance(value, (tuple, list)) or len(value) != len(target.elts):
                 raise Unsupported("tuple assignment", stmt)
             for el, v in zip(target.elts, value):
@@ -1413,6 +1545,9 @@ class Evaluator:
             if isinstance(ob, Obj) and hasattr(ob, "abs_setattr"):
                 if op != "=":
                     curv = ob.abs_getattr(target.attr, self, stmt)
+                    if hasattr(curv, "abs_iadd") and op == "+=":
+                        curv.abs_iadd(value, self, stmt)
+                        return
                     done, _obj = inplace(curv, op, value, stmt)
                     if done:
                         return
@@ -1457,7 +1592,7 @@ class Evaluator:
                     if not (0 <= idx0[0] < len(base.rows) and 0 <= idx0[1] < len(base.rows[idx0[0]])):
                         raise IndexOut(idx0, len(base.rows), stmt)
                     self._concrete_store(base.rows[idx0[0]], idx0[1], op, value, stmt)
-                    check_dtype(base.dtype, base.rows[idx0[0]][idx0[1]], stmt)
+                    base.rows[idx0[0]][idx0[1]] = check_dtype(base.dtype, base.rows[idx0[0]][idx0[1]], stmt)
                     return
             if isinstance(base, Mat) and op == "=":
                 idx = self.ev(target.slice)
@@ -1465,6 +1600,40 @@ class Evaluator:
                     vals = value.vals if isinstance(value, Vec) else value
                     if isinstance(vals, list) and len(vals) == len(base.rows[idx]):
                         base.rows[idx][:] = list(vals)
+                        return
+                    if not isinstance(vals, (list, Vec, Mat)):
+                        base.rows[idx][:] = [vals] * len(base.rows[idx])        # broadcast of a scalar over the row
+                        return
+            if isinstance(base, Mat):
+                idx = self.ev(target.slice)
+                if isinstance(idx, tuple) and len(idx) == 2:
+                    ri, ci = idx
+                    rows_i = list(ri.vals) if isinstance(ri, Vec) else (list(ri) if isinstance(ri, list) else None)
+                    cols_i = list(ci.vals) if isinstance(ci, Vec) else (list(ci) if isinstance(ci, list) else None)
+                    if rows_i is not None and (cols_i is not None or (isinstance(ci, int) and not isinstance(ci, bool))):
+                        # integer-array ("fancy") store: one item per (row, column) pair
+                        if cols_i is None:
+                            cols_i = [ci] * len(rows_i)
+                        if len(cols_i) != len(rows_i):
+                            raise AbsRaise("IndexError", stmt)
+                        vals = value.vals if isinstance(value, Vec) else (list(value) if isinstance(value, (list, tuple)) else [value] * len(rows_i))
+                        if len(vals) != len(rows_i):
+                            raise AbsRaise("ValueError", stmt)
+                        for r_, c_, v_ in zip(rows_i, cols_i, vals):
+                            if not (isinstance(r_, int) and isinstance(c_, int) and 0 <= r_ < len(base.rows) and 0 <= c_ < len(base.rows[r_])):
+                                raise IndexOut((r_, c_), len(base.rows), stmt)
+                            base.rows[r_][c_] = v_ if op == "=" else _arith(AUG_BINOP[op], base.rows[r_][c_], v_, stmt)
+                            base.rows[r_][c_] = check_dtype(base.dtype, base.rows[r_][c_], stmt)
+                        return
+                    if isinstance(ri, int) and not isinstance(ri, bool) and cols_i is not None and 0 <= ri < len(base.rows):
+                        vals = value.vals if isinstance(value, Vec) else (list(value) if isinstance(value, (list, tuple)) else [value] * len(cols_i))
+                        if len(vals) != len(cols_i):
+                            raise AbsRaise("ValueError", stmt)
+                        for c_, v_ in zip(cols_i, vals):
+                            if not (isinstance(c_, int) and 0 <= c_ < len(base.rows[ri])):
+                                raise IndexOut((ri, c_), len(base.rows), stmt)
+                            base.rows[ri][c_] = v_ if op == "=" else _arith(AUG_BINOP[op], base.rows[ri][c_], v_, stmt)
+                            base.rows[ri][c_] = check_dtype(base.dtype, base.rows[ri][c_], stmt)
                         return
                 raise Unsupported("matrix row store", stmt)
         # alias resolution: a name bound to a Sym is a *view* of the symbol (cost_elem1_elem2 = matrix[e1][e2])
@@ -1511,7 +1680,7 @@ class Evaluator:
                 return
         seq[idx] = value if op == "=" else _arith(binop, seq[idx], value, stmt)
         if isinstance(base, Vec) and base.dtype is not None:
-            check_dtype(base.dtype, seq[idx], stmt)
+            seq[idx] = check_dtype(base.dtype, seq[idx], stmt)
 
     def _alias_key(self, t: ast.AST):
         if isinstance(t, ast.Name):
@@ -1611,10 +1780,8 @@ class Evaluator:
                 it = list(it)
             elif isinstance(it, Vec):
                 it = list(it.vals)
-            elif isinstance(it, Mat):
-                it = list(it.rows)
             elif hasattr(it, "abs_iter"):
-                it = list(it.abs_iter())
+                it = list(it.abs_iter())        # a 2-D array yields views of its rows
             if not isinstance(it, (list, tuple)):
                 raise Unsupported("loop over abstract iterable", st)
             it = list(it)
@@ -1657,6 +1824,20 @@ class Evaluator:
             if st.exc is not None:
                 e = st.exc.func if isinstance(st.exc, ast.Call) else st.exc
                 name = _dotted(e) or "Exception"
+                head = name.split(".")[0]
+                if head in self.env:
+                    # `raise exc` / `raise exc_class(...)` where the name is a variable: what it is bound to decides
+                    try:
+                        v = self.ev(e)
+                    except Unsupported:
+                        v = None
+                    cls_ = getattr(v, "cls", None)
+                    if cls_ is not None and hasattr(cls_, "name"):
+                        name = cls_.name
+                    elif hasattr(v, "name") and isinstance(getattr(v, "name"), str) and v.name.startswith("external "):
+                        name = v.name.split(" ", 1)[1]
+                    elif isinstance(v, type) and issubclass(v, BaseException):
+                        name = v.__name__
             raise AbsRaise(name, st)
         if isinstance(st, ast.Assert):
             return
@@ -1822,7 +2003,10 @@ class Evaluator:
                 and len(base.vals) % args[1] == 0:
             return True, Mat([base.vals[i:i + args[1]] for i in range(0, len(base.vals), args[1])])
         if attr == "astype":
-            return True, Vec(list(base.vals))
+            dt = norm_dtype(args[0] if args else None)
+            out = Vec([check_dtype(dt, x, call) for x in base.vals])
+            out.dtype = dt
+            return True, out
         if attr in ("tobytes", "tostring") and not args:
             return True, ("bytes",) + tuple(base.vals)
         if attr in ("max", "min") and not args and base.vals:
